@@ -133,6 +133,34 @@ Section Locality.
     - exfalso. apply in_map_iff in Hi. destruct Hi as [c [<- Hc]].
       rewrite G in Hg; [discriminate|]. fold A in EA. rewrite EA. apply in_or_app. right. apply in_or_app. right. exact Hc.
   Qed.
+  (* the same at the level of a whole backup: one file of the source edited, everything else
+     (and the old version of the file) already in the loaded index -> the only DATA blobs handed
+     to the packer are chunks between the two cuts *)
+  Lemma edit_backup_uploads_only_disturbed_lemma (tid : list entry -> id) (h : bytes -> id) (g : gindex)
+        pre P' X Y S1 S2 rest la ra lb rb its1 its2 nm m r :
+    let A := concat pre ++ P' ++ X ++ S1 ++ S2 in
+    let B := concat pre ++ P' ++ Y ++ S1 ++ S2 in
+    chunker A = pre ++ rest -> P' ++ X ++ S1 ++ S2 <> [] ->
+    chunker A = la ++ ra -> concat la = concat pre ++ P' ++ X ++ S1 ->
+    chunker B = lb ++ rb -> concat lb = concat pre ++ P' ++ Y ++ S1 ->
+    (forall c, In c (chunker A) -> ghas g Data (h c) = true) ->
+    (forall c, In c (data_of (its1 ++ its2)) -> ghas g Data c = true) ->
+    archive tid g (its1 ++ Other nm m (map h (chunker B)) :: its2) = Some r ->
+    exists mb, chunker B = pre ++ mb ++ chunker S2 /\ concat mb = P' ++ Y ++ S1 /\
+               forall c, In (Data, c) (r_sent r) -> In c (map h mb).
+  Proof.
+    intros A B HA NR HLa CLa HLb CLb GA GO AR.
+    destruct (edit_uploads_only_disturbed_lemma h g pre P' X Y S1 S2 rest la ra lb rb HA NR HLa CLa HLb CLb GA)
+      as [mb [EB [Cb Sub]]].
+    exists mb. split; [exact EB|]. split; [exact Cb|].
+    intros c Hc. apply (sent_iff_lemma tid g _ r Data c AR) in Hc. destruct Hc as [Hall Hg].
+    apply (all_data_iff_lemma tid g _ r c AR) in Hall.
+    unfold data_of in Hall. rewrite flat_map_app in Hall. cbn [flat_map] in Hall.
+    apply in_app_or in Hall. destruct Hall as [H1|H2]; [|apply in_app_or in H2; destruct H2 as [H2|H3]].
+    - exfalso. rewrite GO in Hg; [discriminate|]. unfold data_of. rewrite flat_map_app. apply in_or_app. left. exact H1.
+    - apply Sub. unfold file_sends. apply filter_In. split; [exact H2|]. rewrite gate_negb, Hg. reflexivity.
+    - exfalso. rewrite GO in Hg; [discriminate|]. unfold data_of. rewrite flat_map_app. apply in_or_app. right. exact H3.
+  Qed.
 End Locality.
 
 (* ------------------------------------------------------------------ the hypotheses are satisfiable *)
